@@ -311,7 +311,35 @@ fn combinators<const N: usize>(rng: &mut Rng, w: &mut impl std::io::Write) {
     writeln!(w, "AC {} {} {} {} | {} | {} | {}", N, hex(&content), ri, ops.join(","), results.join(","), hex(b.readable()), hex(&sink)).unwrap();
 }
 
+/// the constructors and `into_inner` (`T0` lines, same format as the blocking harness)
+fn ctors<const N: usize>(w: &mut impl std::io::Write) -> usize {
+    let mems: Vec<Vec<u8>> = vec![(0..N).map(|i| 0x61 + (i % 26) as u8).collect(), vec![0u8; N], vec![0xffu8; N]];
+    let mut n = 0;
+    let mut b: AsyncFixedBuf<N> = AsyncFixedBuf::new();
+    writeln!(w, "T0 {} new - | {}", N, full(&observe(&mut b))).unwrap();
+    n += 1;
+    for m in &mems {
+        let mut a = [0u8; N];
+        a.copy_from_slice(m);
+        let mut e = AsyncFixedBuf::empty(a);
+        writeln!(w, "T0 {} empty {} | {}", N, hex(m), full(&observe(&mut e))).unwrap();
+        let mut f = AsyncFixedBuf::filled(a);
+        writeln!(w, "T0 {} filled {} | {}", N, hex(m), full(&observe(&mut f))).unwrap();
+        // into_inner hands back the same buffer: wrap it again via its memory and indices
+        let mut inner = AsyncFixedBuf::filled(a).into_inner();
+        let wl = inner.writable().len();
+        let wi = N - wl;
+        let ri = wi - inner.len();
+        let st = St { mem: inner.mem().to_vec(), ri, wi, rd: inner.readable().to_vec(), e: inner.is_empty() };
+        writeln!(w, "T0 {} filled {} | {}", N, hex(m), full(&st)).unwrap();
+        n += 3;
+    }
+    n
+}
+
 pub fn run(thorough: bool, seed: u64, w: &mut impl std::io::Write) {
+    let nc = ctors::<0>(w) + ctors::<1>(w) + ctors::<2>(w) + ctors::<7>(w) + ctors::<64>(w) + ctors::<300>(w);
+    eprintln!("STAT at constructors={}", nc);
     let r0 = explore::<0>(w);
     let r1 = explore::<1>(w);
     let r2 = explore::<2>(w);
